@@ -662,7 +662,7 @@ func expiringItems(r *rep.Report, e rep.Env) {
 				loc.AddFact(ctx, fmt.Sprintf("short%d", i), core.Map{"k": "short", "n": float64(i), "ttl": 1.0})
 				loc.AddFact(ctx, fmt.Sprintf("long%d", i), core.Map{"k": "long", "n": float64(i)})
 			}
-			duels := e.Pick(300, 1500)
+			duels := e.Pick(300, 800) // (the location takes 1000 items)
 			for i := 0; i < duels; i++ {
 				loc.AddFact(ctx, fmt.Sprintf("duel%d", i), core.Map{"k": "duel", "ttl": 1.0})
 			}
@@ -770,6 +770,57 @@ func expiringItems(r *rep.Report, e rep.Env) {
 	}
 }
 
+// remRuleDuels: one client removes rule r while another adds r again and then disables it (both
+// acknowledged, in that order).  Whatever the order of the three requests, a rule r that exists in
+// the end is disabled: "exists and is enabled" is explained by no order.
+func remRuleDuels(r *rep.Report, e rep.Env) {
+	for _, kind := range drv.Kinds {
+		loc, err := drv.NewLoc("D", kind, drv.MustMem())
+		if err != nil {
+			r.Violate("", "cannot build location", nil)
+			return
+		}
+		rule := func() core.Map {
+			return core.Map{"when": map[string]interface{}{"pattern": map[string]interface{}{"d": "go"}}, "action": map[string]interface{}{"code": "1"}}
+		}
+		n := e.Pick(3000, 20000)
+		bad := 0
+		var first rep.J
+		for i := 0; i < n; i++ {
+			loc.AddRule(drv.Ctx(), "r", rule())
+			loc.EnableRule(drv.Ctx(), "r", true)
+			var wg sync.WaitGroup
+			start := make(chan bool)
+			var remErr, addErr, disErr error
+			wg.Add(2)
+			go func() { defer wg.Done(); <-start; _, remErr = loc.RemRule(drv.Ctx(), "r") }()
+			go func() {
+				defer wg.Done()
+				<-start
+				_, addErr = loc.AddRule(drv.Ctx(), "r", rule())
+				disErr = loc.EnableRule(drv.Ctx(), "r", false)
+			}()
+			close(start)
+			wg.Wait()
+			_, gerr := loc.GetRule(drv.Ctx(), "r")
+			enabled, _ := loc.RuleEnabled(drv.Ctx(), "r")
+			if remErr == nil && addErr == nil && disErr == nil && gerr == nil && enabled {
+				bad++
+				if first == nil {
+					first = rep.J{"state": kind, "round": i, "rule_exists": true, "rule_enabled": true}
+				}
+			}
+			loc.RemRule(drv.Ctx(), "r")
+		}
+		r.Case(true, "rem-rule-duels"+kind)
+		r.Count("rem_rule_duels", n)
+		if bad > 0 {
+			first["rounds"], first["rounds_with_this_outcome"] = n, bad
+			r.Violate("", "RemRule(r) against AddRule(r) followed by EnableRule(r, false): in the end r exists and is enabled, which no order of the three acknowledged requests explains (the removal took the rule first and, later, the new rule's disabled flag)", first)
+		}
+	}
+}
+
 // renderedEvents: event requests to ONE location through the HTTP service, which renders each
 // request's work tree (the dispatched rules included) as JSON while the other requests do the
 // same.  Every answer must be the one a lone request gets; the race detector watches the rest.
@@ -839,6 +890,9 @@ func main() {
 		r.WritePartial()
 		expiringItems(r, e)
 		renderedEvents(r, e)
+	}
+	if e.Batch == 1 {
+		remRuleDuels(r, e)
 	}
 	clearVsWrites(r, e)
 	searchVsAdds(r, e)
